@@ -103,6 +103,16 @@ def sortSearch (items : List Item) (ts : Int) : Nat → Nat → Nat → Nat
       | none => i
     else i
 
+/-- `sort.Search(n, f)` of the Go standard library for an arbitrary predicate on `int`
+(library model, trusted; the translated `index.Time` calls it). -/
+def sortSearchP (f : Int → Bool) : Nat → Int → Int → Int
+  | 0, i, _ => i
+  | fuel + 1, i, j =>
+    if i < j then
+      let h := (i + j) / 2
+      if !f h then sortSearchP f fuel (h + 1) j else sortSearchP f fuel i h
+    else i
+
 /-- `index.Time(items, ts)`: position of the first item whose timestamp is `≥ ts`. -/
 def time (items : List Item) (ts : Int) : IRes Int :=
   match items.head?, items.getLast? with
